@@ -115,6 +115,9 @@ def strategy_stream(ctx, rng, name, mk):
     chunks = S.gen_chunks(rng, n, maxc=5)
     payload = dict(strategy=name, manager=("default" if default_mgr else mk), budget=b, seed=seed, ffb=ffb, chunks=chunks,
                    candidates=cand.tolist())
+    if rng.random() < 0.15:
+        payload["cand_list"] = True
+        ctx.count("strategy_candidates_as_lists")
     if (cognitive or name == "StreamDensityBasedAL") and rng.random() < 0.3:
         # the density test with the library's own distance function and a non-default metric (seed R12I05)
         payload["dist_dict"] = {"metric": rng.choice(["chebyshev", "cityblock"])}
@@ -229,6 +232,8 @@ def run_strategy(payload):
     with np.errstate(all="ignore"):
         for ci, c in enumerate(payload["chunks"]):
             chunk = cand[off:off + c]
+            if payload.get("cand_list"):
+                chunk = chunk.tolist()       # array-like candidates: nested lists are as admissible as ndarrays
             try:
                 idx, ut = S.strat_query(qs, chunk)
             except Exception as e:  # noqa: BLE001
